@@ -156,6 +156,17 @@ def one_case(gs1, ais, rng, tier, viols, cells, counters, forced=None):
     return evals
 
 
+def _how(before, after):
+    """For decimal values: how the value changed (keeps the recorded truncation apart from any other change)."""
+    import decimal
+    if isinstance(before, decimal.Decimal) and isinstance(after, decimal.Decimal):
+        sb, sa = str(before), str(after)
+        if sb != sa and sb.startswith(sa) and '.' in sa:
+            return '|fraction-digits-lost'
+        return '|value-differs'
+    return ''
+
+
 def culprit_tag(items, d, result, s2):
     """(tag, attributed?) naming the first AI whose value is lost or changed when d is encoded with separator s2."""
     byai = {a: p for a, p, _r in items}
@@ -171,7 +182,7 @@ def culprit_tag(items, d, result, s2):
             a = cul[0]
             if a not in byai:
                 return 'spurious-ai|' + ctx, True
-            return '%s%s|%s' % (fmt_class(byai[a]), '[padded]' if a in padded else '', ctx), True
+            return '%s%s|%s%s' % (fmt_class(byai[a]), '[padded]' if a in padded else '', ctx, _how(d.get(a), result[1].get(a))), True
     elif padded:
         # decoding broke down: with no separator the padded (non-last variable-length) values are the suspects;
         # name those whose type is not a plain string first
